@@ -154,7 +154,7 @@ fn props() -> Vec<PropDef> {
         rule: "one case = either (a) 2-3 solver programs (New, solve, update_q/b, re-solve, with max_iter/time cuts and optional faulty print streams) on simulated threads plus 0-1 threads storing to the infinity bound, scheduled by the seeded baton at every seam call and compared bit for bit with each program run alone, or (b) one solver solved twice and solved after 1-2 interrupted solves, compared bit for bit with an uninterrupted first solve; non-trivial = (a) at least one scheduler hand-off happened inside a solve(), (b) always; distinct = distinct hash of the (thread, event kind) sequence = distinct interleavings",
         assumptions: &[
             "only the schedule / re-solve / reproducibility clauses of C05 are decided; the formulation-equivalence clauses are pure functions of the input and not claimed",
-            "interleaving granularity = seam calls (about 12 clock reads per iteration, every sink call, every infinity accessor)",
+            "interleaving granularity = seam calls (about 12 clock reads per iteration, every sink call, every infinity accessor) plus the 14 Event::Yield scheduling points at internal layer boundaries; shared state written and read between two consecutive scheduling points is invisible",
         ],
     },
     PropDef {
